@@ -271,9 +271,12 @@ def plan_c14(c):
     return m
 
 
-def plan_accept(area, cfg, what, mc=True):
+def plan_accept(area, cfg, what, mc=True, gen=None):
     def plan(c):
-        if mc:
+        if gen:
+            # inputs that do not depend on the library's encoder: the spec's encoding of every packet of MC_Wire's domain
+            n0 = gen_replay(c, gen, "Trace_Accept", cfg, what)
+        elif mc:
             mc_wire(c)
         mc_poll(c)
         m, _ = tv(c, area, "Trace_Accept", cfg, what, shard=4000)
@@ -408,7 +411,7 @@ _reg("C14", plan_c14, "fault_enumeration",
      "fault enumeration at every position + TLA+ model with fault actions + trace validation")
 
 
-_reg("C04", plan_accept("strict", "Trace_Accept_C04.cfg", "C04 strict acceptance = grammar"), "model_checking",
+_reg("C04", plan_accept("strict", "Trace_Accept_C04.cfg", "C04 strict acceptance = grammar", gen="strict"), "model_checking",
      "The operational grammar (Wire.tla: StrictParse) is model-checked for self-consistency (MC_Wire) and the poll-decoder "
      "model is checked to deliver exactly StrictParse for every schedule (MC_Poll); real code: valid frames, legal non-"
      "canonical spellings, catalogue malformations and re-framed byte-level mutations are given to the poll decoder and each "
@@ -422,13 +425,13 @@ _reg("C20", plan_accept("mal", "Trace_Accept_C20.cfg", "C20 documented error per
      "decoders must report exactly the grammar's error (variant and carried value; strict: remaining-length error, lenient: "
      "incomplete, for an inner length past the frame).", "catalogue enumeration at every site + TLA+ operational grammar + "
      "trace validation")
-_reg("C11", plan_accept("reenc", "Trace_Accept_C11.cfg", "C11 accepted input re-encodes and decodes to itself", mc=False),
+_reg("C11", plan_accept("reenc", "Trace_Accept_C11.cfg", "C11 accepted input re-encodes and decodes to itself", gen="reenc"),
      "model_checking",
      "Inputs: valid encodings (+ suffix), legal non-canonical spellings (short forms spelled out, reversed property order, "
      "non-minimal remaining length), catalogue malformations, structure-aware corruptions. Whatever any front-end accepts is "
      "re-encoded (a panic is data) and re-decoded on all three; the C11 equations are validated by TLC.",
      "trace validation of decode/re-encode/re-decode observations")
-_reg("C12", plan_accept("decoded", "Trace_Accept_C12.cfg", "C12 invariants of decoded packets", mc=False), "model_checking",
+_reg("C12", plan_accept("decoded", "Trace_Accept_C12.cfg", "C12 invariants of decoded packets", gen="decoded"), "model_checking",
      "For every packet any front-end accepts (same input families as C11, with invalid UTF-8 / wildcards / invalid filters "
      "injected at every text-bearing site): every text field checked with the specification's UTF-8 automaton on the raw "
      "bytes; the library's own name/filter predicates and shared accessors run on the decoded values; pids, var-ints and "
